@@ -261,7 +261,9 @@ type c40Metrics struct {
 	err  error
 }
 
-func (m *c40Metrics) Snapshot(context.Context) (*console.MetricsSnapshot, error) { return m.snap, m.err }
+func (m *c40Metrics) Snapshot(context.Context) (*console.MetricsSnapshot, error) {
+	return m.snap, m.err
+}
 
 var c40MetricVariants = []string{"nil", "ok", "error", "nilsnap"}
 
@@ -294,6 +296,16 @@ func c40Lists() [][]string {
 		}
 	}
 	out = append(out, []string{"orders", "events", "a:b"}, []string{"orders", "events", "a:b", "missing"})
+	if vh.Thorough() {
+		core := []string{"", "orders", "missing", "a:b", "g1"}
+		for _, a := range core {
+			for _, b := range core {
+				for _, c := range core {
+					out = append(out, []string{a, b, c})
+				}
+			}
+		}
+	}
 	return out
 }
 
@@ -609,7 +621,7 @@ func TestVerifC40(t *testing.T) {
 	sort.Strings(toolNames)
 	rep.SetInfo("tools_discovered", toolNames)
 	rep.SetInfo("name_alphabet", c40NameAlphabet)
-	rep.SetInfo("list_alphabet", "absent, null, wrong types, every list of length <= 2 over the name alphabet, all topics, all topics + missing")
+	rep.SetInfo("list_alphabet", "absent, null, wrong types, every list of length <= 2 over the name alphabet, all topics, all topics + missing; thorough: + every list of length 3 over {empty, orders, missing, a:b, g1}")
 	var unknown []string
 	for _, n := range toolNames {
 		if !known[n] {
@@ -620,6 +632,10 @@ func TestVerifC40(t *testing.T) {
 		rep.SetInfo("tools_without_direct_handler_cases", unknown)
 	}
 	failAts := []int{0, 1, 2}
+	if vh.Thorough() {
+		failAts = []int{0, 1, 2, 3, 4}
+	}
+	rep.SetInfo("fail_read_at", failAts)
 	for _, tool := range toolNames {
 		argsets, props := c40SchemaArgs(schemas[tool])
 		mvs := []string{"nil"}
